@@ -78,24 +78,6 @@ Definition probe_outcome (arp : list arp_resp) (requester : bytes) (ip : N) : bo
   | None => (true, (arp_tries * arp_timeout)%Z)
   end.
 
-(* ---- database steps added by the repairs (table level) ---- *)
-(* HoldClient: like UpdateClient, but an existing binding of this client that outlasts the hold is kept *)
-Definition t_hold_client (x : ipdb) (now : Z) (ip : option N) (duid : bytes) (ttl : Z) (t : table) : bool * table :=
-  match to_uip x ip with
-  | None => (false, t)
-  | Some n =>
-    match t_lookup now n duid t with
-    | (Some p, Some q) =>
-      if Nat.eqb p q then
-        match nth_error t p with
-        | Some e => if (now + ttl <? e_until e)%Z then (true, t) else t_update_client x now ip duid ttl t
-        | None => t_update_client x now ip duid ttl t
-        end
-      else t_update_client x now ip duid ttl t
-    | _ => t_update_client x now ip duid ttl t
-    end
-  end.
-
 (* ---- classification of a REQUEST (netio.go handleRequest) ---- *)
 Definition classify_request (c : scfg) (dst src : N) (o : decoded_options) : option N :=
   let bc := dst =? bcast_ip in
